@@ -14,7 +14,13 @@
                                           plugin.createContainer AGDeliver g p  (once per plugin of [to])
                                           r.Unlock()             AGEnd g
          (the runtime's own bookkeeping)  store += c             AGStore g
-         b.Unblock()                      syncLock.RUnlock()     AGRelease g
+         b.Unblock()                      syncLock.RUnlock(); b.r = nil      AGRelease g
+         b.Unblock()  (again: b.r == nil) nothing                AGReleaseAgain g
+           "Safe to call multiple times but only from a single goroutine": a runtime may release a
+           block on its success path AND by a deferred Unblock.  A goroutine that is not inside a block
+           (absent from [gors]) references only blocks it has released (b.r == nil) or a nil block;
+           Unblock on those is guarded and does nothing — in particular it does not touch the reader
+           count, so the blocks of OTHER goroutines stay held.
 
    The semantics of sync.RWMutex and sync.Mutex is *assumed* and expressed as the
    enabling conditions of APAcquire / AGAcquire / AGBegin / APActivate.
@@ -76,7 +82,8 @@ Inductive action :=
 | AGDeliver (g : gid) (p : pid)
 | AGEnd (g : gid)
 | AGStore (g : gid)
-| AGRelease (g : gid).
+| AGRelease (g : gid)
+| AGReleaseAgain (g : gid).      (* a repeated Unblock of a block g has already released *)
 
 Definition remove_s (x : string) (l : list string) : list string :=
   filter (fun y => negb (String.eqb x y)) l.
@@ -185,6 +192,11 @@ Definition step (s : state) (a : action) : option state :=
                   recv := recv s; used := used s |}
       | _ => None
       end
+  | AGReleaseAgain g =>                              (* b.r == nil: the guard of Unblock makes it a no-op *)
+      match alookup g (gors s) with
+      | None => Some s
+      | Some _ => None
+      end
   end.
 
 Fixpoint steps (s : state) (l : list action) : option state :=
@@ -205,7 +217,8 @@ Inductive lev :=
 | LRecv (g : gid) (p : pid) (c : cid)        (* p's CreateContainer handler ran for c (created by g) *)
 | LCreateRet (g : gid) (c : cid)             (* r.CreateContainer returned to g *)
 | LStore (g : gid) (c : cid)                 (* the runtime added c to its store *)
-| LBlockRel (g : gid)                        (* logged before Unblock *)
+| LBlockRel (g : gid)                        (* logged before the FIRST Unblock of the block *)
+| LBlockRelAgain (g : gid)                   (* logged before a repeated Unblock of the block g released last *)
 | LSyncEnter (p : pid) (ids : list cid)      (* SyncFn entered; ids = the store it read *)
 | LSyncRecv (p : pid) (ids : list cid)       (* p's Synchronize handler received ids *)
 | LSyncRet (p : pid) (ok : bool).            (* SyncFn returned (ok = nil error) *)
@@ -241,6 +254,7 @@ Definition expand (s : state) (e : lev) : option (list action) :=
       | _ => None
       end
   | LBlockRel g => Some [AGRelease g]
+  | LBlockRelAgain g => Some [AGReleaseAgain g]
   | LSyncEnter p _ =>
       Some ((match alookup p (plugs s) with None => [APArrive p] | Some _ => [] end)
               ++ [APAcquire p; APSnapshot p])
